@@ -217,6 +217,20 @@ class Ctx:
             self.violation("proof", "Print Assumptions count %d != theorem count %d" % (len(blocks), len(names)),
                            {"theorem": "Print Assumptions", "out": out[-2000:]}, no_input=True)
             return False
+        if self.tier == "thorough":
+            # independent re-check of the compiled statement file and everything it depends on
+            rc2, out2, dt2 = sh("timeout 1500 coqchk -silent -o -Q . Ticc Ticc.Properties.%s" % self.prop, timeout=1600, cwd=COQ)
+            self.notes["coqchk_s"] = round(dt2, 1)
+            m2 = re.search(r"\* Axioms:(.*?)\* Constants/Inductives relying on type-in-type", out2, re.S)
+            chk_ax = [l.strip() for l in (m2.group(1).splitlines() if m2 else []) if l.strip() and l.strip() != "<none>"]
+            declared = [a for a in chk_ax if not (a.startswith("Coq.Floats.PrimFloat.") or a.startswith("Coq.Numbers.Cyclic.Int63."))]
+            self.notes["coqchk_axioms_beyond_primitives"] = declared
+            ok_names = {"Coq.Logic.FunctionalExtensionality.functional_extensionality_dep", "Coq.Reals.ClassicalDedekindReals.sig_not_dec",
+                        "Coq.Reals.ClassicalDedekindReals.sig_forall_dec", "Coq.Logic.Classical_Prop.classic"}
+            if rc2 != 0 or "type-in-type: <none>" not in out2 or "unsafe (co)fixpoints: <none>" not in out2 or "positivity is assumed: <none>" not in out2 \
+                    or any(a not in ok_names for a in declared):
+                self.violation("proof", "coqchk does not accept Properties/%s.vo cleanly (rc=%s, axioms %s)" % (self.prop, rc2, declared),
+                               {"theorem": "coqchk:Properties/%s" % self.prop, "log_tail": out2[-2000:]}, no_input=True)
         good = True
         for n, axs in zip(names, blocks):
             ax_ok = all((a in allowed) or is_primitive(a) for a in axs)
